@@ -16,6 +16,9 @@ using namespace Avoid;
 #ifndef IMPROVE
 #define IMPROVE 1
 #endif
+#ifndef SCENE
+#define SCENE 1
+#endif
 #ifdef REROUTE_TERMS
 #define M(x) x " [hyperedge registered by terminal list]"
 #else
@@ -89,6 +92,21 @@ extern "C" void harness(void) {
 #ifdef ADDREMOVE
     router->setRoutingOption(improveHyperedgeRoutesMovingAddingAndDeletingJunctions, true);
 #endif
+#if SCENE == 2
+    // three 10x10 shapes in a staircase, shapeBufferDistance 4; pins: left side, top, right side (two collinear shift segments
+    // of the hyperedge merge during nudging in this layout)
+    router->setRoutingParameter(shapeBufferDistance, 4);
+    static const double CXs[3] = {100, 60, 40}, CYs[3] = {-20, 60, 100};
+    ShapeRef *shapes[3]; ShapeConnectionPin *pins[3];
+    for (int i = 0; i < 3; i++) {
+        Rectangle r(Point(CXs[i] - 5, CYs[i] - 5), Point(CXs[i] + 5, CYs[i] + 5));
+        shapes[i] = new ShapeRef(router, r);
+        if (i == 0) pins[i] = new ShapeConnectionPin(shapes[i], 1, ATTACH_POS_LEFT, ATTACH_POS_CENTRE, true, 0.0, ConnDirLeft);
+        else if (i == 1) pins[i] = new ShapeConnectionPin(shapes[i], 1, ATTACH_POS_CENTRE, ATTACH_POS_TOP, true, 0.0, ConnDirUp);
+        else pins[i] = new ShapeConnectionPin(shapes[i], 1, ATTACH_POS_RIGHT, ATTACH_POS_CENTRE, true, 0.0, ConnDirRight);
+        pins[i]->setExclusive(true);
+    }
+#else
     // three 20x20 shapes: left, right-top, right-bottom; pins face the middle
     static const double SX[3] = {0, 120, 120}, SY[3] = {40, 0, 80};
     ShapeRef *shapes[3]; ShapeConnectionPin *pins[3];
@@ -98,6 +116,7 @@ extern "C" void harness(void) {
         pins[i] = new ShapeConnectionPin(shapes[i], 1, i == 0 ? ATTACH_POS_RIGHT : ATTACH_POS_LEFT, ATTACH_POS_CENTRE, true, 0.0, i == 0 ? ConnDirRight : ConnDirLeft);
         pins[i]->setExclusive(true);
     }
+#endif
 #ifdef REROUTE_TERMS
     // register the hyperedge by its list of terminals only (no initial junction or connectors): the rerouter creates them
     double shx = verif_coord(-10, 10);
@@ -111,7 +130,11 @@ extern "C" void harness(void) {
     delete router;
     return;
 #endif
+#if SCENE == 2
+    double jx = verif_coord(34, 46);
+#else
     double jx = verif_coord(40, 100);
+#endif
 #ifdef JYFIX
     double jy = JYFIX;
 #else
